@@ -28,6 +28,13 @@ starts at `MAX_EXPANDED_LINES` and there are at most `MAX_EXPANSION_PASSES` pass
 theorem expand_pass_bounded (b : Nat) (ls out : List Line) (b' : Nat) (h : onePass b ls = .ok (out, b')) :
     out.length + b' ≤ ls.length + b := onePass_budget b ls out b' h
 
+/-- what "bounded" means with the limits the code declares **now** (regenerated on every run): at most
+10 passes, at most 10^6 lines produced by loop expansion, and a nesting limit under which the measured
+doubling of the pest recogniser's backtracking per bracket level stays below 2^16 steps. Raising a
+limit beyond that breaks this obligation (the nesting limit was 24 on the unchanged tree: ~15 s). -/
+theorem limits_bound_the_work :
+    MAX_EXPANSION_PASSES ≤ 10 ∧ MAX_EXPANDED_LINES ≤ 1000000 ∧ 2 ^ MAX_NESTING_DEPTH ≤ 65536 := by decide
+
 /-- `preprocess_indentation` never panics (the indent stack is never empty, `usize` subtractions do not underflow) -/
 theorem indent_total (src : Text) : ∃ out, preprocessC src = .ok out := preprocessC_ok src
 
@@ -61,6 +68,13 @@ theorem text_stages_total (src : Text) :
 theorem timestamp_arithmetic_total (year : Int) (month day : Nat) (tod tzHours : Int) :
     ∃ r, timestampNs year month day tod tzHours = .ok r := timestampNs_ok year month day tod tzHours
 
+/-- `parse_timestamp` on the *text* of a literal (prefix, `T` split, `-`/`:` splitting, zone suffix,
+number parsing with defaults, then the calendar arithmetic): total whenever the time part, if there is
+one, starts with a one-byte character — which the grammar's `timestamp` rule guarantees (a digit).
+(`"@2024-01-01T"`, which the grammar cannot produce, makes the public helper panic at `time_str[1..]`.) -/
+theorem timestamp_literal_total (lit : Text) (h : timePartOk lit = true) : ∃ r, timestampText lit = .ok r :=
+  timestampText_ok lit h
+
 /-! Witnesses of the defects repaired in `expand.rs` (the pre-fix behaviour, replayed on the model's
 primitives): `&bl[strip..]` at a non-boundary, and the range arithmetic. -/
 
@@ -83,5 +97,7 @@ example : preprocessC "fn f():\n  return 1\n".toList = .ok "fn f():\n«INDENT»r
 example : fromPosition "éé\nx".toList 5 = (2, 1) := by decide
 example : timestampNs 1970 1 1 3600 0 = .ok 3600000000000 := by decide
 example : timestampNs 2024 13 0 0 0 = timestampNs 2024 12 1 0 0 := by decide
+example : timestampText "@1970-01-02T00:00:00+01:00".toList = .ok 82800000000000 := by decide
+example : timestampText "@2024-01-01T".toList = .panic "byte index 1 is out of bounds or not a char boundary" := by decide
 
 end Varpulis.Props.C41
